@@ -91,6 +91,9 @@ type c39run struct {
 	extra    map[string]int
 	anyClose bool // Close has been invoked on some endpoint
 	settle   bool
+	raw       bool // endpoint B is a scripted raw peer instead of a real connection
+	rawScript []int
+	rawp      *rawPeer
 }
 
 type msgRec struct {
@@ -258,6 +261,26 @@ func (c39) NewRun(plan *simrt.Source, job *harn.Job) harn.Run {
 			}
 			r.tasks = append(r.tasks, tp)
 		}
+	}
+	// raw-peer configuration: only A is a real connection
+	r.raw = plan.Chance(200)
+	if v, ok := job.Knobs["raw"]; ok {
+		r.raw = v == 1
+	}
+	if r.raw {
+		var keep []taskPlan
+		for _, t := range r.tasks {
+			if t.Ep == 0 {
+				keep = append(keep, t)
+			}
+		}
+		r.tasks = keep
+		r.net.B = simnet.Faults{}
+		r.net.A = simnet.Faults{ShortReads: r.net.A.ShortReads, ShortWrite: r.net.A.ShortWrite}
+		for i, n := 0, plan.Draw(7); i < n; i++ {
+			r.rawScript = append(r.rawScript, plan.Draw(6))
+		}
+		r.net.Desc = fmt.Sprintf("RAW PEER script=%v cap=%d A=%+v", r.rawScript, r.net.Cap, r.net.A)
 	}
 	r.work = append(r.work, r.net.Desc)
 	h := uint64(14695981039346656037)
@@ -501,8 +524,12 @@ func (ep *endpoint) handle(ctx context.Context, req *jsonrpc2.Request) (interfac
 			for i := 0; i < delay; i++ {
 				simrt.Yield("responder")
 			}
-			err := ep.conn.Respond(id, expected("async", p.Nonce), nil)
+			// From here on the request is being answered: Close cannot return
+			// before Respond's bookkeeping is done (the request is counted as
+			// incoming until then), but it may return before this goroutine is
+			// scheduled again after Respond's last unlock.
 			delete(ep.asyncOpen, key)
+			err := ep.conn.Respond(id, expected("async", p.Nonce), nil)
 			_ = err
 			r.sim.Probe("async-responded")
 		})
@@ -561,6 +588,15 @@ func (r *c39run) await(cr *callRec, ctx context.Context, cancelAfter int, backgr
 
 // checkAwait is the per-Await oracle ("own answer").
 func (r *c39run) checkAwait(cr *callRec, aw *awaitRec) {
+	if r.raw && !cr.inner {
+		r.rawAwaitOK(cr, aw)
+		if aw.err == nil {
+			r.sim.Probe("await-success")
+		} else {
+			r.sim.Probe("await-error")
+		}
+		return
+	}
 	if aw.err == nil {
 		want := expected(cr.method, cr.nonce)
 		if aw.val != want {
@@ -645,17 +681,20 @@ func (r *c39run) Body(s *simrt.Sim) {
 	r.release = make(chan struct{})
 	r.eps[0] = &endpoint{r: r, idx: 0, name: "A", asyncOpen: map[string]bool{}}
 	r.eps[1] = &endpoint{r: r, idx: 1, name: "B", asyncOpen: map[string]bool{}}
-	r.lis = &listener{r: r}
-	r.server = jsonrpc2.NewServer(context.Background(), r.lis, r.eps[1])
-	conn, err := jsonrpc2.Dial(context.Background(), r.lis.Dialer(), r.eps[0], nil)
-	if err != nil {
-		r.fail("harness", "Dial failed: "+err.Error(), "Dial")
-		return
-	}
-	_ = conn
-	// wait until the server side has bound its connection
-	for r.eps[1].conn == nil {
-		simrt.Yield("wait-for-accept")
+	if r.raw {
+		r.srvWaited = true
+		r.startRaw()
+	} else {
+		r.lis = &listener{r: r}
+		r.server = jsonrpc2.NewServer(context.Background(), r.lis, r.eps[1])
+		if _, err := jsonrpc2Dial(r.lis.Dialer(), r.eps[0]); err != nil {
+			r.fail("harness", "Dial failed: "+err.Error(), "Dial")
+			return
+		}
+		// wait until the server side has bound its connection
+		for r.eps[1].conn == nil {
+			simrt.Yield("wait-for-accept")
+		}
 	}
 	r.tasksAll = len(r.tasks)
 	for i, t := range r.tasks {
@@ -684,6 +723,10 @@ func (r *c39run) Body(s *simrt.Sim) {
 			r.tasksDone++
 		})
 	}
+}
+
+func jsonrpc2Dial(d jsonrpc2.Dialer, b jsonrpc2.Binder) (*jsonrpc2.Connection, error) {
+	return jsonrpc2.Dial(context.Background(), d, b, nil)
 }
 
 func (r *c39run) OnStep(s *simrt.Sim) *simrt.Failure {
@@ -777,6 +820,11 @@ func (r *c39run) OnQuiesce(s *simrt.Sim, _ int) bool {
 				if ep.conn != nil {
 					simrt.Go(ep.name+".settle-close", func() { r.doClose(ep) })
 				}
+			}
+			if r.raw {
+				// the peer disconnects
+				r.rawp.end.Close()
+				return
 			}
 			r.server.Shutdown()
 			simrt.Go("server-wait", func() {
